@@ -2,8 +2,8 @@
    The function bodies come from Gen/Exprs.v, i.e. from the repository's
    current source (translator/gen.py). *)
 From Coq Require Import String ZArith List Bool Arith.
-From SK Require Import Model.Skel Spec.C18 Proofs.C18 Gen.Exprs Gen.Params
-     Gen.Skeleton.
+From SK Require Import Model.Skel Model.Stm Model.CallCount Proofs.CallCount
+     Spec.C18 Proofs.C18 Gen.Exprs Gen.Params Gen.Skeleton Gen.SkelTree.
 Import ListNotations.
 Open Scope Z_scope.
 
@@ -50,6 +50,39 @@ Theorem C18_submit_once_per_entry :
   submit_once_per_entry sk_run_mp = true.
 Proof. vm_compute. reflexivity. Qed.
 
+(* ONE dispatch per run, whatever path the execution of run() takes
+   (exceptions and early exits included): over every event sequence the
+   extracted body of run() admits, _run_mp and _run_single are called at most
+   once in total - no pool generation is started a second time *)
+Theorem C18_one_dispatch_per_run : forall t,
+  trl tk_run t ->
+  (count (is_call_in ["run_mp"; "run_single"]) t <= 1)%nat.
+Proof.
+  intros t H. apply (count_bounded_list _ _ _ _ H). vm_compute. reflexivity.
+Qed.
+
+(* ... and that dispatch creates ONE executor: over every event sequence of
+   _run_mp the pool is entered at most once *)
+Theorem C18_one_pool_per_dispatch : forall t,
+  trl tk_run_mp t -> (count (is_call "pool_enter") t <= 1)%nat.
+Proof.
+  intros t H. apply (count_bounded_list _ _ _ _ H). vm_compute. reflexivity.
+Qed.
+
+(* non-vacuity: the bound is attained by the ordinary multi-file path *)
+Example C18_one_dispatch_attained : exists t,
+  trl tk_run t /\ count (is_call_in ["run_mp"; "run_single"]) t = 1%nat.
+Proof.
+  eexists. split.
+  - unfold tk_run.
+    eapply trl_cons; [apply tr_ev|].
+    eapply trl_cons; [apply tr_skip|].
+    eapply trl_cons;
+      [apply tr_if_a; repeat (eapply trl_cons; [apply tr_ev|]); apply trl_nil|].
+    eapply trl_cons; [apply tr_skip|apply trl_nil].
+  - vm_compute. reflexivity.
+Qed.
+
 (* default configuration *)
 Theorem C18_default_max_parallel_tasks_nonneg :
   0 <= DEFAULT_MAX_PARALLEL_TASKS.
@@ -73,3 +106,5 @@ Print Assumptions C18_distinct_workers_bounded.
 Print Assumptions C18_single_file_in_process.
 Print Assumptions C18_many_files_use_pool.
 Print Assumptions C18_submit_once_per_entry.
+Print Assumptions C18_one_dispatch_per_run.
+Print Assumptions C18_one_pool_per_dispatch.
